@@ -140,6 +140,7 @@ void Exec::op_read(Client &c) {
 	std::string fmt = op->s("fmt", "LP") == "MPS" ? "MPS" : "LP"; std::string via = op->s("via", "path");
 	std::string path = io_path(op, fmt == "LP" ? ".lp" : ".mps");
 	if (op->has("pick") && !prob_paths.empty()) { path = prob_paths[modn(op->i("pick"), (long)prob_paths.size())]; fmt = files[path].fmt; }   // write order; -1 = most recent
+	if (op->i("missing", 0)) { path = "/sim/no_such_dir/"; long len = op->i("missing"); for (long k = 0; k < len; k++) path.push_back("subdir_"[k % 7]); path += fmt == "LP" ? ".lp" : ".mps"; }   // a file that is not there, with a short or a very long name
 	bool exists = world.files.count(path) != 0;
 	arm_file_faults(path);
 	bool destructive_now = op->fault("io.read_eio") || op->fault("io.open_fail");
